@@ -34,6 +34,20 @@ def expand(crate, features=(), debug_assertions=None, lib=True, manifest_dir=Non
         return _EXPAND_CACHE[key]
     tdir = os.path.join(WORK, 'expand-target')
     os.makedirs(tdir, exist_ok=True)
+    # parts of one check run in parallel threads, and several of them expand the same crate: removing cargo's fingerprint while
+    # another cargo writes it makes that one fail ("could not parse/generate dep info") - serialise (threads and processes)
+    import fcntl
+    with open(os.path.join(tdir, '.expand.lock'), 'w') as lk:
+        fcntl.flock(lk, fcntl.LOCK_EX)
+        try:
+            if key in _EXPAND_CACHE:
+                return _EXPAND_CACHE[key]
+            return _expand_locked(crate, features, debug_assertions, key, tdir)
+        finally:
+            fcntl.flock(lk, fcntl.LOCK_UN)
+
+
+def _expand_locked(crate, features, debug_assertions, key, tdir):
     cmd = ['cargo', '+nightly', 'rustc', '-p', crate, '--lib', '--offline']
     if features:
         cmd += ['--features', ','.join(features)]
